@@ -392,10 +392,11 @@ class FunctionReference:
             if memento_fn is not None and memento_fn.fn is not None
             else self._module + ":" + self._function_name
         )
-        if version is not None:
-            qualified_name += "#" + version
+        # (a version may contain "::" itself: look for the cluster prefix before appending it)
         if cluster_name is not None and "::" not in qualified_name:
             qualified_name = cluster_name + "::" + qualified_name
+        if version is not None:
+            qualified_name += "#" + version
         self._qualified_name = qualified_name
 
         self._qualified_name_without_cluster = (
